@@ -68,6 +68,14 @@ def one_xml(kind, opt):
   </worldbody><equality>{eq}</equality><tendon>{ten}</tendon></mujoco>"""
 
 
+# contacts produced ONLY by the convex (GJK/EPA) narrowphase: no plane or other primitive pair that would add to nacon later
+CONVEX_ONLY = """<mujoco><option timestep="0.004" gravity="0 0 0" {opt}/><worldbody>
+  <body pos="0 0 1.000"><freejoint/><geom type="box" size=".1 .1 .1"/></body>
+  <body pos="0.03 0.02 1.197"><freejoint/><geom type="box" size=".1 .1 .1"/></body>
+  <body pos="-0.02 0.03 1.394"><freejoint/><geom type="box" size=".1 .1 .1"/></body>
+  <body pos="0.6 0 1.0"><freejoint/><geom type="ellipsoid" size=".1 .15 .2"/></body>
+  <body pos="0.6 0.02 1.36"><freejoint/><geom type="cylinder" size=".1 .17"/></body></worldbody></mujoco>"""
+
 SCENES = {
   "small_dense": ("small", 'jacobian="dense"'),
   "small_sparse": ("small", 'jacobian="sparse"'),
@@ -75,6 +83,7 @@ SCENES = {
   "rich_dense": ("rich", 'jacobian="dense"'),
   "rich_sparse": ("rich", 'jacobian="sparse"'),
   "boxes": ("boxes", 'jacobian="sparse"'),
+  "convex_only": ("convex_only", 'jacobian="dense"'),
 }
 for _k in ONE_KINDS:
   SCENES[f"one_{_k}"] = ("one:" + _k, 'jacobian="sparse"')
@@ -89,6 +98,8 @@ def _model(sc):
     b, opt = SCENES[sc]
     if b.startswith("one:"):
       xml = one_xml(b[4:], opt)
+    elif b == "convex_only":
+      xml = CONVEX_ONLY.format(opt=opt)
     else:
       xml = BOXES.format(opt=opt) if b == "boxes" else getattr(scenes, b)(opt=opt)
     mjm = util.load(xml)
@@ -105,7 +116,7 @@ def _model(sc):
         d.qpos[5] = 0.02 * w
         d.qvel[:] = 0.3 * np.cos(np.arange(mjm.nv) + w)
         sts.append(d)
-    elif b == "boxes":
+    elif b in ("boxes", "convex_only"):
       import mujoco
 
       sts = []
@@ -164,6 +175,7 @@ def scenarios(tier, seed):
     "rich_dense": dict(njmax=range(0, 70) if full else W, naconmax=range(0, 20) if full else W),
     "rich_sparse": dict(njmax=range(0, 70) if full else W, naconmax=range(0, 20) if full else W, njmax_nnz=range(0, 900) if full else W),
     "boxes": dict(naccdmax=range(0, 14), naconmax=range(0, 24)),
+    "convex_only": dict(naconmax=range(0, 14), naccdmax=range(0, 14)),
   }
   for k in ONE_KINDS:
     sweeps[f"one_{k}"] = dict(njmax=range(0, 14), njmax_nnz=range(0, 66))
